@@ -52,6 +52,8 @@ def batch(argv):
     g, ev = REG[prop]
     stats, sigs, viols, samples, harness = {}, {}, [], [], []
     observations = {}
+    digests = {}
+    want_digests = os.environ.get("VERIF_DIGESTS") == "1"
     n = 0
     t0 = time.time()
     for i in range(lane, count, nlanes):
@@ -68,6 +70,12 @@ def batch(argv):
                             "trace": traceback.format_exc()[-1500:]})
             continue
         n += 1
+        if want_digests:
+            import hashlib
+            dd = dict(doc)
+            dd.pop("hashseed", None)
+            digests[i] = [hashlib.sha256(json.dumps(jsonable(dd), sort_keys=True).encode()).hexdigest()[:16],
+                          hashlib.sha256(json.dumps(jsonable(r), sort_keys=True).encode()).hexdigest()[:16]]
         merge_stats(stats, r["stats"])
         if r["nontrivial"]:
             sigs[r["sig"]] = sigs.get(r["sig"], 0) + 1
@@ -84,6 +92,8 @@ def batch(argv):
            "n_harness_errors": len(harness), "wall_s": time.time() - t0, "repo": bootstrap.REPO}
     if observations:
         res["observations"] = observations
+    if digests:
+        res["digests"] = digests
     with open(out + ".tmp", "w") as f:
         json.dump(jsonable(res), f)
     os.replace(out + ".tmp", out)
